@@ -140,9 +140,10 @@ func c10(run *ev.Run, tier string) {
 			args = append(args, filepath.Join(d, "msg"))
 		}
 		var se []byte
-		// gpg was seen to reject a signature once under heavy machine load and to
-		// accept the same bytes afterwards; a rejection therefore counts only when
-		// it is reproducible (three attempts on the same bytes)
+		// a rejection counts only when it is reproducible on the same bytes (three
+		// attempts; recoveries are counted in the evidence as gpg_flakes). The
+		// sporadic rejections first put down to machine load were F23: 1 in 256
+		// RSA-2048 signatures has a length divisible by three.
 		for attempt := 0; attempt < 3; attempt++ {
 			var code int
 			var err error
@@ -238,6 +239,11 @@ func c10(run *ev.Run, tier string) {
 		if useCallback {
 			keyName = "callback"
 		}
+		apkMail := "verif@example.com"
+		if m.f == "apk" && i%2 == 1 {
+			apkMail = "Release.Team@ACME-Software.example"
+			s.Maintainer = "ACME Release Team <" + apkMail + ">"
+		}
 		y := s.YAML()
 		hasFile := false
 		for _, e := range s.Contents {
@@ -281,7 +287,9 @@ func c10(run *ev.Run, tier string) {
 					}
 					_, _ = w.Write(b)
 					_ = w.Close()
-					return out.Bytes(), nil
+					// the harness signer owns its armor: go-crypto leaves the CRC line
+					// out, which gpg 2.2 cannot parse for some signature lengths (F23)
+					return rearmorWithCRC(out.Bytes()), nil
 				}
 			case m.f == "deb":
 				info.Deb.Signature.SignFn = func(r io.Reader) ([]byte, error) {
@@ -484,7 +492,7 @@ func c10(run *ev.Run, tier string) {
 			case s.APK.Sig.KeyName != "":
 				wantName += s.APK.Sig.KeyName + ".rsa.pub"
 			default:
-				wantName += "verif@example.com.rsa.pub" // maintainer mail address
+				wantName += apkMail + ".rsa.pub" // maintainer mail address, as written
 			}
 			if se.Name != wantName {
 				viol("apk-signature-name", map[string]any{"got": se.Name, "want": wantName})
@@ -588,6 +596,31 @@ func c10(run *ev.Run, tier string) {
 			info, _ := infoFor(&cfg, format)
 			r := packageInfo(format, info)
 			expectSigningFailure(bad.what+"/"+fm, r.Err, r.Panic, nil)
+		}
+	}
+	// signer errors whose chain contains io.EOF / io.ErrUnexpectedEOF / context
+	// errors (a remote signer whose connection was closed) are failures like any other
+	for _, inner := range []error{io.EOF, io.ErrUnexpectedEOF, os.ErrDeadlineExceeded, fmt.Errorf("post https://kms: %w", io.EOF)} {
+		for _, fm := range []string{"deb", "deb-dpkg-sig", "rpm", "apk"} {
+			format := strings.SplitN(fm, "-", 2)[0]
+			s := base()
+			if fm == "deb-dpkg-sig" {
+				s.Deb.Sig.Method = "dpkg-sig"
+			}
+			cfg, _ := parseYAML(s.YAML(), nil)
+			info, _ := infoFor(&cfg, format)
+			e := inner
+			fn := func(io.Reader) ([]byte, error) { return nil, e }
+			switch format {
+			case "deb":
+				info.Deb.Signature.SignFn = fn
+			case "rpm":
+				info.RPM.Signature.SignFn = fn
+			case "apk":
+				info.APK.Signature.SignFn = fn
+			}
+			r := packageInfo(format, info)
+			expectSigningFailure(fmt.Sprintf("callback-returns-%T-%s/%s", inner, ev.KeyPart(inner.Error()), fm), r.Err, r.Panic, inner)
 		}
 	}
 	// invalid debsign type, with key file and with callback
@@ -708,9 +741,13 @@ func c10(run *ev.Run, tier string) {
 			}
 		}
 	}
+	c10OddPassphrases(run, base, &verified)
 	// history: the key file is replaced by another key between two builds in
 	// the same process; the second package must be signed by the new key
 	c10KeyRotation(run, base, &verified)
+	if haveGpgv {
+		c10KeySizes(run, base, &verified, gpgHome, gpgVerify)
+	}
 	run.Set("signatures_verified", verified)
 	run.Set("callback_byte_streams_compared", cbBytes)
 	run.Set("failure_injections", failures)
@@ -806,7 +843,7 @@ func writeArmoredPrivateKey(path string, e *openpgp.Entity) error {
 	if err != nil {
 		return err
 	}
-	if err := e.SerializePrivate(w, nil); err != nil {
+	if err := e.SerializePrivateWithoutSigning(w, nil); err != nil {
 		return err
 	}
 	if err := w.Close(); err != nil {
@@ -863,6 +900,156 @@ func c10KeyRotation(run *ev.Run, base func() *gen.Spec, verified *int64) {
 				run.Violate("C10/"+format+"/signature-not-by-the-key-in-the-key-file/after-key-rotation", map[string]any{"round": round, "method": f, "error": verr.Error()})
 			} else {
 				atomic.AddInt64(verified, 1)
+			}
+		}
+	}
+}
+
+// c10OddPassphrases: a passphrase is data - leading/trailing blanks, tabs and
+// '$' belong to it. Keys are generated and locked with such passphrases, the
+// passphrase reaches nfpm through the environment mapping.
+func c10OddPassphrases(run *ev.Run, base func() *gen.Spec, verified *int64) {
+	dir := newWorkDir("c10pass")
+	defer removeWorkDir(dir)
+	for pi, pass := range []string{" leading", "trailing ", "\ttab\t", "in ner", "pa$$word", "  "} {
+		ent, err := openpgp.NewEntity("Locked", "", "locked@example.com", &packet.Config{RSABits: 2048, DefaultHash: crypto.SHA256})
+		if err != nil {
+			run.Inconclusive("cannot generate a PGP key: " + err.Error())
+			return
+		}
+		if err := ent.EncryptPrivateKeys([]byte(pass), nil); err != nil {
+			run.Inconclusive("cannot lock the generated key: " + err.Error())
+			return
+		}
+		keyPath := filepath.Join(dir, fmt.Sprintf("locked-%d.asc", pi))
+		if err := writeArmoredPrivateKey(keyPath, ent); err != nil {
+			run.Inconclusive(err.Error())
+			return
+		}
+		for _, f := range []string{"deb", "rpm"} {
+			s := base()
+			s.Deb.Sig.KeyFile, s.RPM.Sig.KeyFile = keyPath, keyPath
+			cfg, err := parseYAML(s.YAML(), func(k string) string {
+				if k == "NFPM_"+strings.ToUpper(f)+"_PASSPHRASE" {
+					return pass
+				}
+				return ""
+			})
+			if err != nil {
+				run.Inconclusive(err.Error())
+				continue
+			}
+			info, _ := infoFor(&cfg, f)
+			res := packageInfo(f, info)
+			run.Case(fmt.Sprintf("odd-passphrase|%q|%s", pass, f), true)
+			if res.Err != nil || res.Panic != "" {
+				run.Violate("C10/"+f+"/signed-build-error/passphrase-with-special-characters", map[string]any{"passphrase": pass, "error": fmt.Sprint(res.Err, res.Panic)})
+				continue
+			}
+			p := dec.Decode(f, res.Bytes, false)
+			ring := openpgp.EntityList{ent}
+			var verr error
+			if f == "deb" {
+				_, verr = openpgp.CheckArmoredDetachedSignature(ring, bytes.NewReader(debMessage(p)), bytes.NewReader(p.SigMember.Data), nil)
+			} else {
+				_, verr = openpgp.CheckDetachedSignature(ring, bytes.NewReader(p.Rpm.Hdr.Blob), bytes.NewReader(p.Rpm.Sig.Tags[dec.RpmSigRSA].Bin), nil)
+			}
+			if verr != nil {
+				run.Violate("C10/"+f+"/signature-does-not-verify/passphrase-with-special-characters", map[string]any{"error": verr.Error()})
+			} else {
+				atomic.AddInt64(verified, 1)
+			}
+		}
+	}
+}
+
+// rearmorWithCRC rewrites the trailing signature block of a clear-signed
+// message with the optional CRC-24 line.
+func rearmorWithCRC(signed []byte) []byte {
+	idx := bytes.LastIndex(signed, []byte("-----BEGIN PGP SIGNATURE-----"))
+	if idx < 0 {
+		return signed
+	}
+	blk, err := armor.Decode(bytes.NewReader(signed[idx:]))
+	if err != nil {
+		return signed
+	}
+	sig, err := io.ReadAll(blk.Body)
+	if err != nil {
+		return signed
+	}
+	var out bytes.Buffer
+	out.Write(signed[:idx])
+	w, err := armor.Encode(&out, blk.Type, nil)
+	if err != nil {
+		return signed
+	}
+	_, _ = w.Write(sig)
+	_ = w.Close()
+	out.WriteByte('\n')
+	return out.Bytes()
+}
+
+// c10KeySizes: the signature packet length depends on the key size, and with
+// it the shape of the armor (base64 padding). Every size must give members gpg
+// accepts: RSA-3072 signatures have a length divisible by three (F23).
+func c10KeySizes(run *ev.Run, base func() *gen.Spec, verified *int64, gpgHome string, gpgVerify func(sig, msg []byte) (bool, string)) {
+	dir := newWorkDir("c10size")
+	defer removeWorkDir(dir)
+	for _, bits := range []int{2048, 3072, 4096} {
+		ent, err := openpgp.NewEntity("Sized", "", fmt.Sprintf("rsa%d@example.com", bits), &packet.Config{RSABits: bits, DefaultHash: crypto.SHA256})
+		if err != nil {
+			run.Inconclusive("cannot generate a PGP key: " + err.Error())
+			return
+		}
+		keyPath := filepath.Join(dir, fmt.Sprintf("rsa%d.asc", bits))
+		if err := writeArmoredPrivateKey(keyPath, ent); err != nil {
+			run.Inconclusive(err.Error())
+			return
+		}
+		var pub bytes.Buffer
+		if w, err := armor.Encode(&pub, openpgp.PublicKeyType, nil); err == nil {
+			_ = ent.Serialize(w)
+			_ = w.Close()
+		}
+		_ = os.WriteFile(keyPath+".pub", pub.Bytes(), 0o600)
+		if _, se, code, err := runCmd(nil, dir, []string{"GNUPGHOME=" + gpgHome, "PATH=" + os.Getenv("PATH")}, "gpg", "--batch", "--quiet", "--import", keyPath+".pub"); err != nil || code != 0 {
+			run.Set("gpg_keysize_note", "gpg could not import a generated key: "+ev.Short(string(se), 200))
+			return
+		}
+		for _, method := range []string{"debsign", "dpkg-sig"} {
+			for rep := 0; rep < 2; rep++ {
+				s := base()
+				s.Deb.Sig.KeyFile = keyPath
+				s.Deb.Sig.Method = method
+				s.Release = fmt.Sprint(rep + 1)
+				res := buildYAML(s.YAML(), "deb")
+				run.Case(fmt.Sprintf("key-size|%d|%s", bits, method), true)
+				if res.Err != nil || res.Panic != "" {
+					run.Violate("C10/deb/signed-build-error/generated-key", map[string]any{"bits": bits, "method": method, "error": fmt.Sprint(res.Err, res.Panic)})
+					continue
+				}
+				p := dec.Decode("deb", res.Bytes, false)
+				if p.SigMember == nil {
+					run.Violate("C10/deb/signature-member-missing", map[string]any{"bits": bits, "method": method})
+					continue
+				}
+				var ok bool
+				var out string
+				if method == "debsign" {
+					ok, out = gpgVerify(p.SigMember.Data, debMessage(p))
+				} else {
+					ok, out = gpgVerify(p.SigMember.Data, nil)
+				}
+				if !ok {
+					key := "C10/deb/debsign-gpg-rejects"
+					if method == "dpkg-sig" {
+						key = "C10/deb/dpkg-sig-gpg-rejects"
+					}
+					run.Violate(key, map[string]any{"rsa_bits": bits, "method": method, "gpg": ev.Short(out, 300), "signature_member": string(p.SigMember.Data)})
+				} else {
+					atomic.AddInt64(verified, 1)
+				}
 			}
 		}
 	}
